@@ -358,6 +358,12 @@ func TestC20(t *testing.T) {
 	rec := ev.New("C20", "histories of 0..80 Add/Remove/Exist on NewHashSet(cap 1..10, elemSize 1..5 (16 for the ipdict shape), fixed|variable, hash in {default murmur, constant, len, first-byte&1, fnv}); keys over {0x00,a,b} of length 0..elemSize+3; full state (Len, Full, Exist of the whole key universe) compared with a Go map after every step. non-trivial: an Add succeeds after a Remove (free-list reuse) or a member is removed from the middle of a collision chain; distinct by full case")
 	names := c20HashNames()
 	maxOps := ev.N(80, 120)
+	if w := replayWitness(t); w != nil {
+		c := &c20Case{}
+		replayInto(t, w["case"], c)
+		c20Exec(t, rec, c, "replay")
+		return
+	}
 	// deterministic scenarios (shapes named in DESIGN.md): free-list reuse, middle-of-chain deletion,
 	// capacity edge, stale node bytes after a removed key
 	mk := func(cap, size int, fixed bool, hash string, ops ...string) *c20Case {
